@@ -636,7 +636,7 @@ func runCell(cl cell, budget int) {
 		return
 	}
 	fbOn := cl.fb == "on" && cl.size > 0 && cl.kind == "message"
-	st := judge(c, omode{kind: cl.kind, alive: true, fbExpected: fbOn, fbPossible: fbOn, atMostOnce: (cl.kind == "event" || cl.kind == "log") && cl.size > 0}, r)
+	st := judge(c, omode{kind: cl.kind, alive: true, fbExpected: fbOn, fbPossible: fbOn, atMostOnce: (cl.kind == "event" || cl.kind == "log") && cl.size > 0 && !strictBroadcast}, r)
 	if cl.size == 0 && st.refused > 0 {
 		r.fail("spurious-error/"+cl.kind, "send to a live receiver with an unbounded mailbox refused: %v", st.errs)
 	}
